@@ -42,7 +42,7 @@ PROPS = {
 PROPS["C01"] = {
     "package": "c01",
     "exe": "m_c01",
-    "rule": "signature lists over the property's seven classes {valid by authorized key i, second valid by the same key, "
+    "rule": "signature lists over the property's seven classes {valid by authorized key i, second valid by the same key (its key id spelled in upper-case hex), "
             "corrupted, over other content, by key of another role, by unknown key, by authorized key missing from "
             "the key table}: exhaustively up to length 3 (quick, <=2 authorized keys) / 4 (thorough, <=3 keys) for "
             "thresholds 1..k+1 at Root::verify_role and Delegations::verify_role (ed25519), random lists of length "
@@ -118,7 +118,7 @@ PROPS["C09"] = {
     "rule": "for each file kind (2.root.json, timestamp, snapshot, targets, delegated role at depth 1 and 2) the applicable "
             "limit (the pinned length when the parent pins one, else the configured limit) is set to size-100000, size-1, "
             "size, size+1, size+100000 (0 when negative); the same with the file replaced by an endless or padded stream; "
-            "chains of 0..max+3 valid newer roots for max_root_updates 0..4; delegation graphs (tree, self, deep self, "
+            "chains of 0..max+3 valid newer roots for max_root_updates 0..4; the same chains met by a client whose datastore has recorded a newer root than the one shipped (two-cycle histories); delegation graphs (tree, self, deep self, "
             "mutual, 3-cycle, diamond, duplicate in one list, sibling back edge, chain of 5, random graphs over <=5 roles); "
             "legitimate repositories with every file exactly at its bound and delegated roles larger than targets.json. "
             "Non-trivial: a file within 1 byte of its bound, an oversized stream, a cyclic graph, or chain >= limit.",
@@ -254,7 +254,7 @@ PROPS["C07"] = {
     "package": "c07", "exe": "m_c07",
     "rule": "random delegation trees to depth 3 and fan-out 3 (<= 8 roles); each role delegated by 1..3 path patterns drawn "
             "from literals and 16 patterns with '*' and '?' (incl. patterns that only match because wildcards cross '/') or "
-            "by 1..3 hash prefixes of length 0..3 (of real name digests, or random); 1..6 target names out of 12 (sub-directories, "
+            "by 1..3 hash prefixes of length 0..4 (of real name digests, a quarter of them spelled in upper case; or random over {0 5 a f A F g}); 1..6 target names out of 12 (sub-directories, "
             "names needing resolution such as x/../a, d/./b, d//a, an absolute name) each listed by every role with probability "
             "1/3, every (role, name) entry with its own digest; both consistent-snapshot settings. Non-trivial: the tree has at "
             "least one delegated role.",
@@ -280,9 +280,9 @@ PROPS["C16"] = {
             "special names '.', '..', 'x.json', 'a%2Fb' vs 'a/b', '%2e%2e', '../../x', '/abs', 'C:\\x', '1.targets', ... and the "
             "reserved family (N.root, root, timestamp, snapshot, targets), each under both consistent-snapshot settings and "
             "several versions. Per name: Role::filename (what the editor writes), the URL path the client requests, the "
-            "datastore entry, the entry Repository::cache writes, and whether anything appeared outside the datastore / "
+            "datastore entry, the path Repository::cache requests and the entry it writes, and whether anything appeared outside the datastore / "
             "cache directories (their parents are watched). Every case is non-trivial; pairwise distinctness is checked "
-            "over the whole run by the driver (a map from file name to role name).",
+            "over the whole run by the driver (a map from every file name observed at any site to the role name).",
     "exhaustive": {"quick": True, "thorough": True},
     "explanation": "Theorems (Tough/Props/C16.lean): encoded names use only [A-Za-z0-9_.~-%]; percent-decoding is a left "
                    "inverse, so the encoding is injective; a role file name has no '/', no NUL, is not empty, '.' or '..'; "
